@@ -37,8 +37,10 @@ ASSUMPTIONS = [
     "scope: meshes with 1-4 dimensions and 1 or 2 cells per axis (the operators are cell-wise), 1-4 components, "
     "int/float/complex data, coded validity masks, default / custom / custom+permuted-mapping labels",
     "reference = the same NumPy function applied to the operands the library itself received (arrays of the "
-    "library's own intermediate results), values compared exactly with NaN == NaN; for dot/cross/angle a "
-    "relative fallback tolerance of 1e-12 (angle: on the cosine) tolerates a different but equivalent summation order",
+    "library's own intermediate results), values compared with NaN == NaN and inf == inf, finite values up to "
+    "1e-13 relative per element (reflected operators evaluate b*a for a*b and complex multiplication is not bitwise "
+    "commutative); for dot/cross/angle additionally a fallback tolerance of 1e-12 of the largest magnitude (angle: "
+    "on the cosine) tolerates a different but equivalent summation order",
     "storage dtype of a result is not fixed by the statement (integer results are widened to float64 by the Field "
     "constructor): values are compared, not dtypes",
     "commutativity of labels/mapping is demanded only when the operands that carry labels for the result agree on "
